@@ -15,8 +15,9 @@ import sys
 import time
 
 ROOT = "/verif"
-BUILD = os.path.join(ROOT, "build")
-REPO = os.environ.get("VERIF_REPO", "/repo")
+REPO = os.path.abspath(os.environ.get("VERIF_REPO", "/repo"))
+# one build directory per tree under test, so that objects of a scratch tree never pass for objects of /repo
+BUILD = os.path.join(ROOT, "build") if REPO == "/repo" else os.path.join(ROOT, "build_alt", hashlib.md5(REPO.encode()).hexdigest()[:10])
 NPROC = os.cpu_count() or 4
 
 
@@ -35,20 +36,50 @@ def mix(seed, i):
     return int.from_bytes(h[:8], "little") >> 1
 
 
+def _drop_stale_objects(variant):
+    """make compares time stamps; a source restored with an older time stamp would go unnoticed. Compare content
+    hashes with the ones recorded at the last build of this variant and delete what is out of date."""
+    src = os.path.join(REPO, "src")
+    cur = {}
+    for fn in sorted(os.listdir(src)):
+        if fn.endswith((".cpp", ".h", ".hpp", ".in", ".am")) and fn != "masa.h":
+            with open(os.path.join(src, fn), "rb") as f:
+                cur[fn] = hashlib.sha256(f.read()).hexdigest()
+    odir = os.path.join(BUILD, "lib", variant)
+    stamp = os.path.join(odir, "sources.sha256.json")
+    old = {}
+    if os.path.exists(stamp):
+        try:
+            old = json.load(open(stamp))
+        except Exception:
+            old = {}
+    if os.path.isdir(odir):
+        hdr_changed = any(old.get(k) != v for k, v in cur.items() if not k.endswith(".cpp")) or any(k not in cur for k in old if not k.endswith(".cpp"))
+        for fn in os.listdir(odir):
+            if fn.endswith(".o"):
+                base = fn[:-2] + ".cpp"
+                if hdr_changed or old.get(base) != cur.get(base):
+                    os.unlink(os.path.join(odir, fn))
+    return stamp, cur
+
+
 def build(variants, bins):
-    """(Re)build library variants from /repo's working tree and re-link the harness binaries."""
+    """(Re)build library variants from the working tree under test and re-link the harness binaries."""
     os.makedirs(BUILD, exist_ok=True)
     t0 = time.time()
     with open(os.path.join(BUILD, ".lock"), "w") as lk:
         fcntl.flock(lk, fcntl.LOCK_EX)
         for v in variants:
-            r = subprocess.run(["make", "-f", os.path.join(ROOT, "mk/lib.mk"), f"VARIANT={v}", f"REPO={REPO}", f"-j{NPROC}"],
+            stamp, cur = _drop_stale_objects(v)
+            r = subprocess.run(["make", "-f", os.path.join(ROOT, "mk/lib.mk"), f"VARIANT={v}", f"REPO={REPO}", f"B={BUILD}", f"-j{NPROC}"],
                                cwd=ROOT, stdout=subprocess.PIPE, stderr=subprocess.STDOUT, text=True)
             if r.returncode != 0:
                 log(r.stdout[-4000:])
                 die(f"BUILD-ERROR: library variant {v} does not compile (exit {r.returncode}); this is a build failure, not a verdict")
+            with open(stamp, "w") as f:
+                json.dump(cur, f)
         if bins:
-            r = subprocess.run(["make", "-f", os.path.join(ROOT, "mk/harness.mk"), f"REPO={REPO}", f"-j{NPROC}"] + [os.path.join(BUILD, "bin", b) for b in bins],
+            r = subprocess.run(["make", "-f", os.path.join(ROOT, "mk/harness.mk"), f"REPO={REPO}", f"B={BUILD}", f"-j{NPROC}"] + [os.path.join(BUILD, "bin", b) for b in bins],
                                cwd=ROOT, stdout=subprocess.PIPE, stderr=subprocess.STDOUT, text=True)
             if r.returncode != 0:
                 log(r.stdout[-6000:])
